@@ -601,6 +601,8 @@ func (t *tScreen) prepareKeys() {
 	t.prepareKeyMod(KeyEnd, ModShift, ti.KeyShfEnd)
 	t.prepareKeyMod(KeyPgUp, ModShift, ti.KeyShfPgUp)
 	t.prepareKeyMod(KeyPgDn, ModShift, ti.KeyShfPgDn)
+	t.prepareKeyMod(KeyInsert, ModShift, ti.KeyShfInsert)
+	t.prepareKeyMod(KeyDelete, ModShift, ti.KeyShfDelete)
 
 	t.prepareKeyMod(KeyRight, ModCtrl, ti.KeyCtrlRight)
 	t.prepareKeyMod(KeyLeft, ModCtrl, ti.KeyCtrlLeft)
